@@ -381,7 +381,7 @@ pub fn run(ctx: &Ctx) -> Report {
     }
 
     // 3. generated deeper trees through Expr::eval
-    let v = search(ctx, "tree", ctx.tier.pick(300_000, 20_000_000), || tree_strategy(ROW_COLS, 5), |e: &E, st| {
+    let v = search(ctx, "tree", ctx.tier.pick(2_000_000, 20_000_000), || tree_strategy(ROW_COLS, 5), |e: &E, st| {
         record(e, st);
         st.class(&format!("depth{}", e.depth().min(5)));
         check_tree(e)
@@ -389,7 +389,7 @@ pub fn run(ctx: &Ctx) -> Report {
     rep.push(v);
 
     // 4. generated trees as select / update / delete conditions
-    let v = search(ctx, "cond", ctx.tier.pick(6_000, 300_000), || tree_strategy(COND_COL_NAMES, 4), |e: &E, st| {
+    let v = search(ctx, "cond", ctx.tier.pick(30_000, 300_000), || tree_strategy(COND_COL_NAMES, 4), |e: &E, st| {
         st.eval();
         st.class("cond");
         let want = expected_matches(e);
